@@ -166,10 +166,66 @@ theorem body_cons (t : Template) (x : List VVal) (xs : List (List VVal)) :
     body t (x :: xs) = Wire.Ipfix.encodeRecord t x ++ body t xs := by
   simp [body]
 
-theorem wfRecord_big {t : Template} {x : List VVal} (h : Wire.Ipfix.wfRecord t x = true) :
-    4 < (Wire.Ipfix.encodeRecord t x).length := by
+theorem wfRecord_pos {t : Template} {x : List VVal} (h : Wire.Ipfix.wfRecord t x = true) :
+    0 < (Wire.Ipfix.encodeRecord t x).length := by
   simp only [Wire.Ipfix.wfRecord, Bool.and_eq_true, decide_eq_true_eq] at h
   exact h.2
+
+/-- a conforming field occupies at least what `minRecLen` counts for its specifier: its fixed length, or
+the 1-octet length prefix of a variable-length field -/
+theorem encodeField_length_ge {s : Spec} {v : VVal} (hw : Wire.Ipfix.wfField s v = true) :
+    (if s.len = 65535 then 1 else s.len) ≤ (Wire.Ipfix.encodeField s v).length := by
+  obtain ⟨fid, ty, hlk⟩ := wfField_lookup hw
+  have hf := wfField_of_lookup hlk hw
+  rw [encodeField_eq]
+  unfold prefixOf
+  by_cases h1 : s.len = 65535
+  · rw [if_pos h1, if_pos h1]
+    by_cases h2 : v.long = true
+    · rw [if_pos h2]; simp only [List.length_append, List.length_cons, List.length_nil]; omega
+    · rw [if_neg h2]; simp only [List.length_append, List.length_cons, List.length_nil]; omega
+  · rw [if_neg h1] at hf
+    rw [if_neg h1, if_neg h1]
+    simp only [List.nil_append]; omega
+
+theorem fields_length_ge : ∀ (specs : List Spec) (vals : List VVal), specs.length = vals.length →
+    (List.zipWith Wire.Ipfix.wfField specs vals).all id = true →
+    (specs.map (fun s => if s.len = 65535 then 1 else s.len)).sum ≤
+      (List.zipWith Wire.Ipfix.encodeField specs vals).flatten.length := by
+  intro specs
+  induction specs with
+  | nil => intro vals _ _; simp
+  | cons f fs ih =>
+    intro vals hl hw
+    cases vals with
+    | nil => simp at hl
+    | cons v vs =>
+      simp only [List.zipWith_cons_cons, List.all_cons, id, Bool.and_eq_true] at hw
+      have h1 := encodeField_length_ge hw.1
+      have h2 := ih vs (by simpa using hl) hw.2
+      simp only [List.map_cons, List.sum_cons, List.zipWith_cons_cons, List.flatten_cons,
+        List.length_append]
+      omega
+
+/-- **RFC 7011 §3.3.1 made precise**: no conforming record is shorter than `minRecLen` of its template -/
+theorem wfRecord_minRecLen {t : Template} {x : List VVal} (h : Wire.Ipfix.wfRecord t x = true) :
+    Wire.Ipfix.minRecLen t ≤ (Wire.Ipfix.encodeRecord t x).length := by
+  simp only [Wire.Ipfix.wfRecord, Bool.and_eq_true, beq_iff_eq, decide_eq_true_eq] at h
+  exact fields_length_ge (specsOf t) x h.1.1 h.1.2
+
+/-- the decoder's `minRecordLen` is the RFC's shortest record, clamped to 1 -/
+theorem minRecLen_spec (t : Template) :
+    minRecLen t = if Wire.Ipfix.minRecLen t < 1 then 1 else Wire.Ipfix.minRecLen t := rfl
+
+theorem minRecLen_ge (t : Template) : Wire.Ipfix.minRecLen t ≤ minRecLen t := by
+  rw [minRecLen_spec]; split <;> omega
+
+/-- a conforming record is at least as long as the decoder's loop bound -/
+theorem wfRecord_ge_min {t : Template} {x : List VVal} (h : Wire.Ipfix.wfRecord t x = true) :
+    minRecLen t ≤ (Wire.Ipfix.encodeRecord t x).length := by
+  have h1 := wfRecord_minRecLen h
+  have h2 := wfRecord_pos h
+  rw [minRecLen_spec]; split <;> omega
 
 /-- **C03 level 2a (record loop)**: over `records ++ pad ++ rest`, with the set header announcing
 exactly `records ++ pad` (16-bit arithmetic: the set length is below 65536), the loop yields all records
@@ -177,7 +233,7 @@ in order, stops in front of the padding, reports no error and does not return di
 theorem setLoop_data (ctx : Ctx) (hsid : 255 < ctx.setId) (hlen16 : ctx.len < 65536) :
     ∀ (records : List (List VVal)) (pad rest : Bytes) (fuel : Nat) (st : St),
       (∀ x ∈ records, Wire.Ipfix.wfRecord ctx.tr x = true) →
-      pad.length ≤ 4 →
+      pad.length < Wire.Ipfix.minRecLen ctx.tr →
       st.r.rem = body ctx.tr records ++ (pad ++ rest) →
       ctx.start ≤ st.r.cnt →
       (st.r.cnt - ctx.start) + ((body ctx.tr records).length + pad.length) = ctx.len →
@@ -194,10 +250,11 @@ theorem setLoop_data (ctx : Ctx) (hsid : 255 < ctx.setId) (hlen16 : ctx.len < 65
     | succ n =>
       simp only [setLoop]
       have hc : contCond ctx st.r = false := by
-        simp only [contCond, consumed16, Bool.and_eq_false_iff, decide_eq_false_iff_not]
+        have hmin := minRecLen_ge ctx.tr
+        simp only [contCond, consumed16, minLeft, if_pos hsid, Bool.and_eq_false_iff, decide_eq_false_iff_not]
         right
         rw [body_nil] at hlen; simp only [List.length_nil] at hlen
-        apply decide_eq_false; omega
+        omega
       rw [hc]
       simp only [body_nil, List.nil_append, List.length_nil, Nat.add_zero, List.map_nil,
         List.append_nil] at hrem ⊢
@@ -211,16 +268,17 @@ theorem setLoop_data (ctx : Ctx) (hsid : 255 < ctx.setId) (hlen16 : ctx.len < 65
     | zero => simp at hfuel
     | succ n =>
       have hmx : Wire.Ipfix.wfRecord ctx.tr x = true := hm x (by simp)
-      have hxlen := wfRecord_big hmx
+      have hxlen := wfRecord_pos hmx
+      have hxmin := wfRecord_ge_min hmx
       simp only [setLoop]
       rw [body_cons] at hrem hlen
       simp only [List.length_append] at hlen
       have hc : contCond ctx st.r = true := by
-        simp only [contCond, consumed16, Bool.and_eq_true, decide_eq_true_eq]
+        simp only [contCond, consumed16, minLeft, if_pos hsid, Bool.and_eq_true, decide_eq_true_eq]
         refine ⟨⟨?_, ?_⟩, ?_⟩
         · apply decide_eq_true; omega
         · rw [hrem]; simp only [List.length_append]; omega
-        · apply decide_eq_true; omega
+        · omega
       rw [if_pos hc]
       have hn23 : ¬ (ctx.setId = 2 ∨ ctx.setId = 3) := by omega
       have hnres : ¬ (4 ≤ ctx.setId ∧ ctx.setId ≤ 255) := by omega
@@ -272,7 +330,7 @@ theorem body_length_ge (t : Template) :
   | cons x xs ih =>
     intro h
     have := ih (fun r hr => h r (by simp [hr]))
-    have hx := wfRecord_big (h x (by simp))
+    have hx := wfRecord_pos (h x (by simp))
     simp only [body_cons, List.length_append, List.length_cons]
     omega
 
@@ -301,8 +359,8 @@ theorem decodeSet_data (addr : Bytes) (t : Template) (records : List (List VVal)
     decodeSet addr fuel ⟨⟨Wire.Ipfix.encodeDataSet t records pad ++ rest, c⟩, cache, recs⟩ =
       (⟨⟨rest, c + (Wire.Ipfix.encodeDataSet t records pad).length⟩, cache,
         recs ++ records.map (Wire.Ipfix.expectedRecord t)⟩, none) := by
-  simp only [Wire.Ipfix.wfSet, Wire.Ipfix.wfSetLen, Bool.and_eq_true, decide_eq_true_eq, beq_iff_eq,
-    List.all_eq_true] at hw
+  simp only [Wire.Ipfix.wfSet, Wire.Ipfix.wfSetLen, Wire.Ipfix.wfDataPad, Bool.and_eq_true, decide_eq_true_eq,
+    beq_iff_eq, List.all_eq_true] at hw
   obtain ⟨⟨⟨⟨⟨h255, h64k⟩, hlk⟩, _⟩, hrec⟩, hpad, hlen⟩ := hw
   unfold Wire.Ipfix.encodeDataSet
   rw [decodeSet_header addr fuel t.tid _ pad rest c cache recs h64k hlen]
@@ -499,7 +557,7 @@ theorem setLoop_tpl (ctx : Ctx) (enc : Template → Bytes) (hsid : ctx.setId = 2
     | succ n =>
       simp only [setLoop]
       have hc : contCond ctx st.r = false := by
-        simp only [contCond, consumed16, Bool.and_eq_false_iff]
+        simp only [contCond, consumed16, minLeft, if_neg (by omega : ¬ ctx.setId > 255), Bool.and_eq_false_iff]
         right
         simp only [tbody, List.map_nil, List.flatten_nil, List.length_nil] at hlen
         apply decide_eq_false; omega
@@ -520,7 +578,7 @@ theorem setLoop_tpl (ctx : Ctx) (enc : Template → Bytes) (hsid : ctx.setId = 2
       rw [tbody_cons] at hrem hlen
       simp only [List.length_append] at hlen
       have hc : contCond ctx st.r = true := by
-        simp only [contCond, consumed16, Bool.and_eq_true]
+        simp only [contCond, consumed16, minLeft, if_neg (by omega : ¬ ctx.setId > 255), Bool.and_eq_true]
         refine ⟨⟨?_, ?_⟩, ?_⟩
         · apply decide_eq_true; omega
         · apply decide_eq_true; rw [hrem]; simp only [List.length_append]; omega
@@ -581,7 +639,7 @@ theorem decodeSet_tpl (addr : Bytes) (ts : List Template) (pad rest : Bytes)
     (hw : Wire.Ipfix.wfSet addr cache (.tpl ts pad) = true) (hfuel : ts.length < fuel) :
     decodeSet addr fuel ⟨⟨Wire.Ipfix.encodeTemplateSet ts pad ++ rest, c⟩, cache, recs⟩ =
       (⟨⟨rest, c + (Wire.Ipfix.encodeTemplateSet ts pad).length⟩, insertAll addr cache ts, recs⟩, none) := by
-  simp only [Wire.Ipfix.wfSet, Wire.Ipfix.wfSetLen, Bool.and_eq_true, decide_eq_true_eq,
+  simp only [Wire.Ipfix.wfSet, Wire.Ipfix.wfSetLen, Wire.Ipfix.wfTplPad, Bool.and_eq_true, decide_eq_true_eq,
     List.all_eq_true] at hw
   obtain ⟨⟨_, hts⟩, hpad, hlen⟩ := hw
   unfold Wire.Ipfix.encodeTemplateSet
@@ -621,7 +679,7 @@ theorem decodeSet_optTpl (addr : Bytes) (ts : List Template) (pad rest : Bytes)
     (hw : Wire.Ipfix.wfSet addr cache (.optTpl ts pad) = true) (hfuel : ts.length < fuel) :
     decodeSet addr fuel ⟨⟨Wire.Ipfix.encodeOptTemplateSet ts pad ++ rest, c⟩, cache, recs⟩ =
       (⟨⟨rest, c + (Wire.Ipfix.encodeOptTemplateSet ts pad).length⟩, insertAll addr cache ts, recs⟩, none) := by
-  simp only [Wire.Ipfix.wfSet, Wire.Ipfix.wfSetLen, Bool.and_eq_true, decide_eq_true_eq,
+  simp only [Wire.Ipfix.wfSet, Wire.Ipfix.wfSetLen, Wire.Ipfix.wfTplPad, Bool.and_eq_true, decide_eq_true_eq,
     List.all_eq_true] at hw
   obtain ⟨⟨_, hts⟩, hpad, hlen⟩ := hw
   unfold Wire.Ipfix.encodeOptTemplateSet
